@@ -127,8 +127,12 @@ def run(tier):
     # ---- totality and determinism
     stored = [i["sql"] for i in info] + [s for i in info for s in i["isql"]]
     strs = inputs(tier, rnd, stored)
-    r1, rc1 = parse_all(h, d, strs, "fwd")
-    r2, rc2 = parse_all(h, d, strs, "rev", reverse=True)
+    # ONE process parses every string twice: all of them in order, then all of them again in reverse order (so that each
+    # string's two calls are separated by different statements) -- the ids N..2N-1 are the second calls
+    N = len(strs)
+    both, rc1 = parse_all(h, d, strs + strs[::-1], "both")
+    r1 = {i: both[i] for i in range(N) if i in both}
+    r2 = {i: both[2 * N - 1 - i] for i in range(N) if (2 * N - 1 - i) in both}
     # fresh process per chunk (a fresh process per string would only cost time: the parser keeps no state between
     # calls unless a change introduces one, which the opposite call order already exposes)
     r3 = {}
